@@ -40,13 +40,17 @@ class PModel(pydantic.BaseModel):
     s: str = "s"
 
 
+class PDefaults(pydantic.BaseModel):
+    a: int = 1
+
+
 @dataclasses.dataclass
 class DC:
     q: int
     s: str = "s"
 
 
-KINDS = ("plain", "any", "int", "str", "model", "dc", "dep")
+KINDS = ("plain", "any", "int", "str", "model", "dc", "dep", "float", "modeld")
 # value classes per kind: (label, value sent, value expected when validation on, expected when off)
 VALUES: Dict[str, List[Any]] = {
     "plain": [("strnum", "5", "5", "5"), ("dict", {"q": 1}, {"q": 1}, {"q": 1})],
@@ -54,8 +58,10 @@ VALUES: Dict[str, List[Any]] = {
     "int": [("conv", "5", 5, "5"), ("noconv", "zz", "zz", "zz"), ("none", None, None, None)],
     "str": [("same", "abc", "abc", "abc"), ("noconv", [1], [1], [1])],
     "model": [("inst", PModel(q=3), PModel(q=3), {"q": 3, "s": "s"}), ("noconv", {"bad": 1}, {"bad": 1}, {"bad": 1})],
+    "modeld": [("empty", {}, PDefaults(), {}), ("inst", PDefaults(a=2), PDefaults(a=2), {"a": 2})],
     "dc": [("inst", DC(q=4), DC(q=4), {"q": 4, "s": "s"}), ("noconv", "zz", "zz", "zz")],
-    "dep": [("absent", None, 99, 99)],
+    "dep": [("absent", None, 99, 99), ("explicit", 50, 50, 50)],
+    "float": [("zero", 0, 0.0, 0), ("conv", "2.5", 2.5, "2.5")],
 }
 
 
@@ -75,7 +81,7 @@ def _dep() -> int:
 def build_function(kinds: List[str], kwonly_from: int, rec: Dict[str, Any]) -> Any:
     from taskiq import TaskiqDepends
 
-    ann = {"plain": "", "any": ": Any", "int": ": int", "str": ": str", "model": ": PModel", "dc": ": DC", "dep": ": int"}
+    ann = {"plain": "", "any": ": Any", "int": ": int", "str": ": str", "model": ": PModel", "dc": ": DC", "dep": ": int", "float": ": float", "modeld": ": PDefaults"}
     parts = []
     for i, k in enumerate(kinds):
         if i == kwonly_from:
@@ -83,7 +89,7 @@ def build_function(kinds: List[str], kwonly_from: int, rec: Dict[str, Any]) -> A
         default = " = TaskiqDepends(_dep)" if k == "dep" else ""
         parts.append(f"p{i}{ann[k]}{default}")
     src = f"async def task_fn({', '.join(parts)}):\n    rec.update(locals())\n    return 1\n"
-    ns = {"Any": Any, "PModel": PModel, "DC": DC, "TaskiqDepends": TaskiqDepends, "_dep": _dep, "rec": rec}
+    ns = {"Any": Any, "PDefaults": PDefaults, "PModel": PModel, "DC": DC, "TaskiqDepends": TaskiqDepends, "_dep": _dep, "rec": rec}
     exec(src, ns)  # noqa: S102
     ns["task_fn"].__module__ = __name__
     return ns["task_fn"], src
@@ -106,8 +112,8 @@ def harness(c: sym.Ctx, case: Dict[str, Any]) -> None:
             raise sym.Abort("non-default parameter after default one")
     vals = [c.choose(len(VALUES[k]), f"val{i}") for i, k in enumerate(kinds)]
     # the caller passes the first `npos` non-dependency positional-capable parameters positionally, the rest by keyword
-    passable = [i for i, k in enumerate(kinds) if k != "dep"]
-    pos_capable = [i for i in passable if i < kwonly_from]
+    passable = [i for i, k in enumerate(kinds) if k != "dep" or VALUES[k][vals[i]][0] == "explicit"]
+    pos_capable = [i for i in passable if i < kwonly_from and kinds[i] != "dep"]
     # positional passing must be a prefix of the parameter list (no dependency parameter in between)
     max_pos = 0
     for idx, i in enumerate(pos_capable):
@@ -157,7 +163,7 @@ def harness(c: sym.Ctx, case: Dict[str, Any]) -> None:
         got = rec.get(f"p{i}", "<missing>")
         if k == "dep":
             c.cover("dep")
-        if k in ("model", "dc"):
+        if k in ("model", "dc", "modeld"):
             c.cover("model")
         if label == "none":
             c.cover("none_value")
